@@ -544,7 +544,9 @@ def float_pass(chk, n_geo):
     rng = chk.rng
     inobis = [0, 31, 59, 90, 120, 151, 181, 212, 243, 273, 304, 334]
     geos = [(10., .5, .8), (30., .3, 2.), (60., .25, 6.), (5., .1, .2), (100., .4, 12.),
-            (20., .6, 3.), (40., .2, 5.), (8., .7, 1.2), (150., .3, 13.), (80., .5, 9.)]
+            (20., .6, 3.), (40., .2, 5.), (8., .7, 1.2), (150., .3, 13.), (80., .5, 9.),
+            # round 8: very deep canyons (aspect 100, 125, 350) - dense districts with a high facade ratio
+            (10., .99, 2.0), (20., .99, 2.5), (30., .98, 14.)]
     while len(geos) < n_geo:
         geos.append((rng.uniform(3, 120), rng.uniform(0.05, 0.85), rng.uniform(0.1, 14)))
     sites = [(1.37, 103.98, 8), (42., -71., -5), (-33.9, 151.2, 10), (64., -21.9, 0), (0., 0., 0),
